@@ -11,14 +11,18 @@ def main():
     ap.add_argument("--only", default=None)
     ap.add_argument("--replay", default=None)
     ap.add_argument("-v", action="store_true")
+    ap.add_argument("--selftest", action="store_true", help="run the seeded in-memory defects; each must be reported")
     a = ap.parse_args()
     warnings.filterwarnings("ignore")
     from . import runner
 
     if a.replay:
         sys.exit(runner.run_replay(a.prop, a.replay))
+    if a.selftest:
+        res = runner.run_selftest(a.prop, a.tier, a.only, a.v)
+        sys.exit(0 if res and all(r["killed"] for r in res) else 3)
     seed = int(os.environ.get("VERIF_SEED", "0") or 0)
-    sys.exit(runner.run_check(a.prop, a.tier, a.only, a.v, seed))
+    sys.exit(runner.run_check(a.prop, a.tier, a.only, a.v, seed)[0])
 
 
 if __name__ == "__main__":
